@@ -21,7 +21,7 @@ RULES = {
     "C02": ["P_C02", "T_C02hop", "T_C02noI", "T_C02once", "T_C02dead", "T_nopanic"],
     "C07": ["P_C07", "T_C07wire", "T_C07cs", "T_C07cap", "T_nopanic"],
     "C08": ["P_C08", "T_C08size", "T_C08dead", "T_C08sched", "T_C08quiet", "T_nopanic"],
-    "C09": ["P_C09", "T_C09obs", "T_C09drop", "T_nopanic"],
+    "C09": ["P_C09", "T_C09obs", "T_C09drop", "T_C09scope", "T_nopanic"],
 }
 MC_PROPS = {"C01": "P_C01", "C02": "P_C02", "C07": "P_C07", "C08": "P_C08", "C09": "P_C09"}
 MC_INVS = {"C01": "TokensUnique", "C02": "TokensUnique", "C07": "CsConsistent", "C08": "AllScheduled", "C09": "TokensUnique"}
@@ -131,6 +131,9 @@ def run(pid, tier, replay=None):
         V.run_harness(binary, "TestFwdSched", {"VERIF_OUT": wd, "VERIF_SCHED": os.path.join(wd, "sched")}, timeout=1800)
         V.run_harness(binary, "TestFwdGen", {"VERIF_OUT": wd, "VERIF_N": 2500 if thorough else 200, "VERIF_LEN": 80 if thorough else 60}, timeout=1800)
         rows = V.read_ndjson(os.path.join(wd, "fwd_sched.ndjson")) + V.read_ndjson(os.path.join(wd, "fwd_gen.ndjson"))
+        if pid == "C09":   # the classification of faces as local / non-local, made by the real transport constructors
+            V.run_harness(binary, "TestFaceScope", {"VERIF_OUT": wd}, timeout=300)
+            rows += V.read_ndjson(os.path.join(wd, "fwd_scope.ndjson"))
     if not rows:
         raise V.Machinery("no trace recorded")
     first = rows[0]
